@@ -173,7 +173,9 @@ def synth(spec):
                     r = v
             seq.append(r)
         hyd = rng.choice(p.get("hydrogens", ["none", "none", "none", "all", "side", "some"]))
-        chains.append(S.peptide(seq, rng, hydrogens=hyd, cterm_oxt=rng.random() < p.get("oxt_prob", 0.8)))
+        amide = bool(p.get("nterm_amide_prob")) and hyd in ("all", "some") and rng.random() < p["nterm_amide_prob"]
+        chains.append(S.peptide(seq, rng, hydrogens=hyd, cterm_oxt=rng.random() < p.get("oxt_prob", 0.8),
+                                nterm_amide=amide))
         kinds.append("aa")
     dense = rng.random() < p.get("dense_prob", 0.5)
     pack(chains, rng, dense)
@@ -586,6 +588,13 @@ def materialise(spec):
         out["text"] = pdbfmt.to_text(out["items"])
     if p.get("icode_prob") and random.Random(spec["seed"] + 17).random() < p["icode_prob"]:
         apply_icodes(out, random.Random(spec["seed"] + 18))
+    if p.get("no_element_prob") and "items" in out and random.Random(spec["seed"] + 21).random() < p["no_element_prob"]:
+        # files without the optional columns 67-80 (segment id, element, charge), as many programs write them
+        for it in out["items"]:
+            if isinstance(it, dict):
+                it["elem"], it["seg"], it["chg"] = "", "", ""
+        out["text"] = pdbfmt.to_text(out["items"])
+        out.setdefault("meta", {})["no_element_columns"] = True
     r19 = random.Random(spec["seed"] + 19)
     if r19.random() < p.get("big_serial_prob", 0.15) and "items" in out:
         # serial numbers of a large structure: HETATM serials >= 10000 touch the record name (HETATM10000), the
